@@ -53,6 +53,134 @@ theorem mul_step_nat (X a b lo hi res carry r c : Nat)
     omega
   exact Nat.lt_of_mul_lt_mul_left h4
 
+-- ---- 2. `wmulSplit`, `wmul` ----------------------------------------------------------------------------
+
+theorem mul_split_nat (H a0 a1 b0 b1 q1 r1 q2 r2 p0' c : Nat) (hH : 0 < H)
+    (ha0 : a0 < H) (ha1 : a1 < H) (hb0 : b0 < H) (hb1 : b1 < H)
+    (e1 : a1 * b0 = H * q1 + r1) (e2 : a0 * b1 = H * q2 + r2)
+    (hc : p0' + H * H * c = a0 * b0 + r1 * H + r2 * H) :
+    a1 * b1 + q1 + q2 + c < H * H ∧
+      p0' + H * H * (a1 * b1 + q1 + q2 + c) = (H * a1 + a0) * (H * b1 + b0) := by
+  have h1 : H * (a1 * b0) = H * (H * q1 + r1) := by rw [e1]
+  have h2 : H * (a0 * b1) = H * (H * q2 + r2) := by rw [e2]
+  have k : p0' + H * H * (a1 * b1 + q1 + q2 + c) = (H * a1 + a0) * (H * b1 + b0) := by linarith
+  refine ⟨?_, k⟩
+  have la : H * a1 + a0 < H * H := by
+    have : H * a1 + H ≤ H * H := by rw [← Nat.mul_succ]; exact Nat.mul_le_mul_left H ha1
+    omega
+  have lb : H * b1 + b0 < H * H := by
+    have : H * b1 + H ≤ H * H := by rw [← Nat.mul_succ]; exact Nat.mul_le_mul_left H hb1
+    omega
+  have lab := Nat.mul_lt_mul'' la lb
+  have : H * H * (a1 * b1 + q1 + q2 + c) < H * H * (H * H) := by omega
+  exact Nat.lt_of_mul_lt_mul_left this
+
+theorem mul_two_pow_half {h : Nat} (hw : w = 2 * h) : 2 ^ w = 2 ^ h * 2 ^ h := by
+  rw [hw, mul_two_pow_two_mul]
+
+theorem mul_toNat_lowHalf {h : Nat} (hh : h < w) (a : BitVec w) :
+    (a &&& ((1#w <<< h) - 1#w)).toNat = a.toNat % 2 ^ h := by
+  rw [mask_eq_ofNat h hh, BitVec.toNat_and, BitVec.toNat_ofNat]
+  have : 2 ^ h - 1 < 2 ^ w :=
+    Nat.lt_of_le_of_lt (Nat.sub_le _ _) (Nat.pow_lt_pow_right (by omega) hh)
+  rw [Nat.mod_eq_of_lt this, Nat.and_two_pow_sub_one_eq_mod]
+
+theorem mul_toNat_highHalf (h : Nat) (a : BitVec w) : (a >>> h).toNat = a.toNat / 2 ^ h := by
+  rw [BitVec.toNat_ushiftRight, Nat.shiftRight_eq_div_pow]
+
+theorem mul_toNat_mul_half {h : Nat} (hw : w = 2 * h) (x y : BitVec w) (hx : x.toNat < 2 ^ h)
+    (hy : y.toNat < 2 ^ h) : (x * y).toNat = x.toNat * y.toNat := by
+  rw [BitVec.toNat_mul, Nat.mod_eq_of_lt]
+  rw [mul_two_pow_half hw]
+  exact Nat.mul_lt_mul'' hx hy
+
+theorem mul_toNat_shl_half {h : Nat} (hw : w = 2 * h) (p : BitVec w) :
+    (p <<< h).toNat = (p.toNat % 2 ^ h) * 2 ^ h := by
+  rw [BitVec.toNat_shiftLeft, Nat.shiftLeft_eq, mul_two_pow_half hw, Nat.mul_mod_mul_right]
+
+theorem mul_wmulSplit_eq (a b : BitVec w) : wmulSplit a b =
+    ((cadd ((a &&& ((1#w <<< (w / 2)) - 1#w)) * (b &&& ((1#w <<< (w / 2)) - 1#w)))
+        (((a >>> (w / 2)) * (b &&& ((1#w <<< (w / 2)) - 1#w))) <<< (w / 2))
+        (((a &&& ((1#w <<< (w / 2)) - 1#w)) * (b >>> (w / 2))) <<< (w / 2))).1,
+     (a >>> (w / 2)) * (b >>> (w / 2))
+      + (((a >>> (w / 2)) * (b &&& ((1#w <<< (w / 2)) - 1#w))) >>> (w / 2))
+      + (((a &&& ((1#w <<< (w / 2)) - 1#w)) * (b >>> (w / 2))) >>> (w / 2))
+      + (cadd ((a &&& ((1#w <<< (w / 2)) - 1#w)) * (b &&& ((1#w <<< (w / 2)) - 1#w)))
+        (((a >>> (w / 2)) * (b &&& ((1#w <<< (w / 2)) - 1#w))) <<< (w / 2))
+        (((a &&& ((1#w <<< (w / 2)) - 1#w)) * (b >>> (w / 2))) <<< (w / 2))).2) := rfl
+
+/-- item 2: `u128::wmul` (half-word schoolbook) for any even width: the Rust non-wrapping sum
+`p3 + (p1 >> h) + (p2 >> h) + c` does not overflow, and the result is the double-width product -/
+theorem wmulSplit_spec {h : Nat} (hw : w = 2 * h) (hh : 0 < h) (a b : BitVec w) :
+    ((a >>> h) * (b >>> h)).toNat
+        + (((a >>> h) * (b &&& ((1#w <<< h) - 1#w))) >>> h).toNat
+        + (((a &&& ((1#w <<< h) - 1#w)) * (b >>> h)) >>> h).toNat
+        + (cadd ((a &&& ((1#w <<< h) - 1#w)) * (b &&& ((1#w <<< h) - 1#w)))
+            (((a >>> h) * (b &&& ((1#w <<< h) - 1#w))) <<< h)
+            (((a &&& ((1#w <<< h) - 1#w)) * (b >>> h)) <<< h)).2.toNat < 2 ^ w ∧
+      (wmulSplit a b).1.toNat + 2 ^ w * (wmulSplit a b).2.toNat = a.toNat * b.toNat := by
+  have hhw : h < w := by omega
+  have hw2 : 2 ≤ w := by omega
+  have e2 : w / 2 = h := by omega
+  have hH : 0 < 2 ^ h := Nat.two_pow_pos h
+  have hX := mul_two_pow_half hw
+  have ha := a.isLt
+  have hb := b.isLt
+  rw [hX] at ha hb
+  have ha0 : a.toNat % 2 ^ h < 2 ^ h := Nat.mod_lt _ hH
+  have hb0 : b.toNat % 2 ^ h < 2 ^ h := Nat.mod_lt _ hH
+  have ha1 : a.toNat / 2 ^ h < 2 ^ h := Nat.div_lt_of_lt_mul ha
+  have hb1 : b.toNat / 2 ^ h < 2 ^ h := Nat.div_lt_of_lt_mul hb
+  have tl := fun x : BitVec w => mul_toNat_lowHalf hhw x
+  have th := fun x : BitVec w => mul_toNat_highHalf h x
+  have t0 : ((a &&& ((1#w <<< h) - 1#w)) * (b &&& ((1#w <<< h) - 1#w))).toNat
+      = (a.toNat % 2 ^ h) * (b.toNat % 2 ^ h) := by
+    rw [mul_toNat_mul_half hw _ _ (by rw [tl]; exact ha0) (by rw [tl]; exact hb0), tl, tl]
+  have t1 : ((a >>> h) * (b &&& ((1#w <<< h) - 1#w))).toNat
+      = (a.toNat / 2 ^ h) * (b.toNat % 2 ^ h) := by
+    rw [mul_toNat_mul_half hw _ _ (by rw [th]; exact ha1) (by rw [tl]; exact hb0), th, tl]
+  have t2 : ((a &&& ((1#w <<< h) - 1#w)) * (b >>> h)).toNat
+      = (a.toNat % 2 ^ h) * (b.toNat / 2 ^ h) := by
+    rw [mul_toNat_mul_half hw _ _ (by rw [tl]; exact ha0) (by rw [th]; exact hb1), tl, th]
+  have t3 : ((a >>> h) * (b >>> h)).toNat = (a.toNat / 2 ^ h) * (b.toNat / 2 ^ h) := by
+    rw [mul_toNat_mul_half hw _ _ (by rw [th]; exact ha1) (by rw [th]; exact hb1), th, th]
+  have hc := cadd_spec hw2 ((a &&& ((1#w <<< h) - 1#w)) * (b &&& ((1#w <<< h) - 1#w)))
+            (((a >>> h) * (b &&& ((1#w <<< h) - 1#w))) <<< h)
+            (((a &&& ((1#w <<< h) - 1#w)) * (b >>> h)) <<< h)
+  rw [t0, mul_toNat_shl_half hw, mul_toNat_shl_half hw, t1, t2, hX] at hc
+  obtain ⟨k1, k2⟩ := mul_split_nat (2 ^ h) _ _ _ _ _ _ _ _ _ _ hH ha0 ha1 hb0 hb1
+    (Nat.div_add_mod ((a.toNat / 2 ^ h) * (b.toNat % 2 ^ h)) (2 ^ h)).symm
+    (Nat.div_add_mod ((a.toNat % 2 ^ h) * (b.toNat / 2 ^ h)) (2 ^ h)).symm hc
+  rw [Nat.div_add_mod, Nat.div_add_mod] at k2
+  have s1 : (((a >>> h) * (b &&& ((1#w <<< h) - 1#w))) >>> h).toNat
+      = (a.toNat / 2 ^ h) * (b.toNat % 2 ^ h) / 2 ^ h := by rw [th, t1]
+  have s2 : (((a &&& ((1#w <<< h) - 1#w)) * (b >>> h)) >>> h).toNat
+      = (a.toNat % 2 ^ h) * (b.toNat / 2 ^ h) / 2 ^ h := by rw [th, t2]
+  have novf : ((a >>> h) * (b >>> h)).toNat
+        + (((a >>> h) * (b &&& ((1#w <<< h) - 1#w))) >>> h).toNat
+        + (((a &&& ((1#w <<< h) - 1#w)) * (b >>> h)) >>> h).toNat
+        + (cadd ((a &&& ((1#w <<< h) - 1#w)) * (b &&& ((1#w <<< h) - 1#w)))
+            (((a >>> h) * (b &&& ((1#w <<< h) - 1#w))) <<< h)
+            (((a &&& ((1#w <<< h) - 1#w)) * (b >>> h)) <<< h)).2.toNat < 2 ^ w := by
+    rw [t3, s1, s2, hX]; exact k1
+  refine ⟨novf, ?_⟩
+  rw [mul_wmulSplit_eq, e2]
+  simp only
+  rw [BitVec.toNat_add, BitVec.toNat_add, BitVec.toNat_add]
+  rw [Nat.mod_eq_of_lt (a := _ + (((a >>> h) * (b &&& ((1#w <<< h) - 1#w))) >>> h).toNat) (by omega)]
+  rw [Nat.mod_eq_of_lt (a := _ + (((a &&& ((1#w <<< h) - 1#w)) * (b >>> h)) >>> h).toNat) (by omega)]
+  rw [Nat.mod_eq_of_lt novf, t3, s1, s2, hX]
+  exact k2
+
+/-- the `wmul` the code uses: `wmulSplit` at `w = 128`, `wmulWide` otherwise (true for every `w`) -/
+theorem wmul_spec (a b : BitVec w) :
+    (wmul a b).1.toNat + 2 ^ w * (wmul a b).2.toNat = a.toNat * b.toNat := by
+  unfold wmul
+  split
+  · rename_i h
+    exact (wmulSplit_spec (h := 64) (by omega) (by decide) a b).2
+  · exact wmulWide_spec a b
+
 /-- what the row loop needs from the word multiplication -/
 def WmulOk (w : Nat) : Prop :=
   ∀ a b : BitVec w, (wmul a b).1.toNat + 2 ^ w * (wmul a b).2.toNat = a.toNat * b.toNat
@@ -326,5 +454,49 @@ theorem Bvd.mul_refines_of (s : Raw 64) (x : AnyBv) (hm : WmulOk 64) (h : s.Inv)
   cases x with
   | d r => exact Bvd.mul_core s _ _ hm h hf _ rfl
   | f w2 r => exact Bvd.mul_core s _ _ hm h hf _ rfl
+
+theorem wmul_ok : WmulOk w := fun a b => wmul_spec a b
+
+-- ---- final statements ---------------------------------------------------------------------------------
+
+/-- item 4 -/
+theorem Bvf.mulRows_value (hw : 2 ≤ w) (ws : Array (BitVec w)) (fetch : Nat → BitVec w)
+    (len : Nat) (res : Array (BitVec w)) (hlen : len ≤ res.size)
+    (hz : ∀ t, t < len → wd res t = 0#w) :
+    valUpTo (Bvf.mulRows ws fetch len res) len
+        = (valUpTo ws len * valF fetch len) % 2 ^ (w * len) ∧
+      (Bvf.mulRows ws fetch len res).size = res.size ∧
+      ∀ t, len ≤ t → wd (Bvf.mulRows ws fetch len res) t = wd res t :=
+  mulRows_spec hw wmul_ok ws fetch len res hlen hz
+
+/-- item 5, `Bvf` -/
+theorem Bvf.mul_refines (s : Raw w) (x : AnyBv) (hw : 2 ≤ w) (h : s.Inv)
+    (hf : ∀ n, valF (fun j => match x with
+        | .f _ r => (r.getInt w j).getD 0#w
+        | .d r => (r.getInt w j).getD 0#w) n = x.abs.val % 2 ^ (w * n)) :
+    (Bvf.mul s x).Inv ∧ (Bvf.mul s x).abs = s.abs.mul x.abs :=
+  have r := Bvf.mul_refines_of s x hw wmul_ok h hf
+  ⟨r.1, r.2.1⟩
+
+theorem Bvf.mul_size (s : Raw w) (x : AnyBv) : (Bvf.mul s x).data.size = s.data.size := by
+  unfold Bvf.mul
+  simp only [size_mod2n]
+  rw [mul_mulRows_eq]
+  exact forRange_inv (fun _ (r : Array (BitVec w)) => r.size = s.data.size) _ 0 _ (Nat.zero_le _)
+    (fun n r _ _ hP => by
+      show (mul_row s.data _ _ n r).1.size = s.data.size
+      unfold mul_row
+      exact forRange_inv (fun _ (p : Array (BitVec w) × BitVec w) => p.1.size = s.data.size) _ 0 _
+        (Nat.zero_le _) (fun m p _ _ hQ => by simp [mul_rowStep, hQ]) _ hP)
+    _ (by simp)
+
+/-- item 5, `Bvd` (the result is a fresh allocation of `capW length` words) -/
+theorem Bvd.mul_refines (s : Raw 64) (x : AnyBv) (h : s.Inv)
+    (hf : ∀ n, valF (match x with
+        | .d r => fun j => wd r.data j
+        | .f _ r => fun j => (r.getInt 64 j).getD 0#64) n = x.abs.val % 2 ^ (64 * n)) :
+    (Bvd.mul s x).Inv ∧ (Bvd.mul s x).abs = s.abs.mul x.abs ∧
+      (Bvd.mul s x).data.size = Bvd.capW s.length :=
+  Bvd.mul_refines_of s x wmul_ok h hf
 
 end Bva
